@@ -592,10 +592,12 @@ class ConvAnalysis(ChangeAnalysis):
         self.svars = status_vars(cfg.fn)
         self.vreports = []
         self._vseen = set()
-        self.conv_sites = sum(1 for n in cfg.fn.walk() if n.k == "BinaryOperator" and
-                              n.v == "=" and n.mo in CONV_MACROS and
-                              strip(n.kids[0]) is not None and strip(n.kids[0]).k == "DeclRefExpr"
-                              and strip(n.kids[0]).n in self.svars)
+        # conversion sites: macro invocations that can fail (one per expansion
+        # line, however many status assignments the expansion contains)
+        self.conv_sites = len(set(n.l for n in cfg.fn.walk() if n.k == "BinaryOperator" and
+                                  n.v == "=" and n.mo in CONV_MACROS and
+                                  strip(n.kids[0]) is not None and strip(n.kids[0]).k == "DeclRefExpr"
+                                  and strip(n.kids[0]).n in self.svars))
         self.grow_sites = 0
         self.keyerror_sites = 0
         self.live = self._flag_liveness()
